@@ -27,7 +27,7 @@ func wildCfg() gen.Cfg {
 	c.Wild = true
 	c.Unicode = true
 	c.Fatal = true
-	for _, g := range []string{"exit-pending"} {
+	for _, g := range []string{"exit-pending", "null-value"} {
 		if pk.GateOpen(g) {
 			c.Off[g] = true
 		}
